@@ -131,3 +131,18 @@ func (r *RefValSet) Key(h int64) string {
 	}
 	return sb.String()
 }
+
+// ShiftTo re-bases a freshly created reference set (heights 1 and 2) to a chain whose
+// initial height is h.
+func (r *RefValSet) ShiftTo(h int64) *RefValSet {
+	return &RefValSet{sets: map[int64]*cmttypes.ValidatorSet{h: r.sets[1].Copy(), h + 1: r.sets[2].Copy()}, last: h + 1}
+}
+
+// CmtAddr is the consensus address of a validator update's public key.
+func CmtAddr(u abci.ValidatorUpdate) []byte {
+	vals, err := cmttypes.PB2TM.ValidatorUpdates([]abci.ValidatorUpdate{u})
+	if err != nil {
+		panic(err)
+	}
+	return vals[0].Address
+}
